@@ -12,6 +12,7 @@ import (
 	"sort"
 	"strconv"
 	"strings"
+	"time"
 
 	"github.com/mutagen-io/mutagen/pkg/container/lru"
 
@@ -161,15 +162,40 @@ func runCase(line string, count func(string)) (impl, oracle string) {
 	return strings.Join(outs, " ") + fmt.Sprintf(" |%s|%s|%d", showPairs(",", content), idx, c.Len()), oracle
 }
 
+// watchdog runs one case with panic isolation and a time limit, so that a
+// defect that makes the code under test loop forever is reported as a failing
+// case (class=hang) instead of stalling the whole check.
+func watchdog(f func() (string, string)) (impl, oracle string, ok bool) {
+	type res struct{ impl, oracle string }
+	ch := make(chan res, 1)
+	go func() {
+		var o string
+		i := hx.Try(func() string {
+			a, b := f()
+			o = b
+			return a
+		})
+		ch <- res{i, o}
+	}()
+	select {
+	case r := <-ch:
+		return r.impl, r.oracle, true
+	case <-time.After(10 * time.Second):
+		return "hang", "class=hang no answer within 10s", false
+	}
+}
+
 func main() {
 	hx.Main("C45", func(c *hx.Ctx) {
+		hung := false
 		emit := func(line string) {
-			var oracle string
-			impl := hx.Try(func() string {
-				i, o := runCase(line, c.Count)
-				oracle = o
-				return i
-			})
+			if hung {
+				return // a case never returned: its goroutine is still spinning, stop here
+			}
+			impl, oracle, ok := watchdog(func() (string, string) { return runCase(line, c.Count) })
+			if !ok {
+				hung = true
+			}
 			if strings.HasPrefix(impl, "panic:") {
 				oracle = "class=panic " + impl
 			}
